@@ -113,6 +113,13 @@ def render(desc, lex=None, encoding="iso-8859-1"):
             sw.append("/max:" + render_number(sg["max"], lx["num.limit"]))
         if (fr["name"], sg["name"]) in enum_of:
             sw.append("/e:" + enum_of[(fr["name"], sg["name"])])
+        x = sg.get("sym") or {}
+        if "start_value" in x:
+            sw.append("/d:" + render_number(x["start_value"], lx["num.limit"]))
+        if "decimals" in x:
+            sw.append("/p:%d" % x["decimals"])
+        if "long_name" in x:
+            sw.append('/ln:"%s"' % x["long_name"] if (" " in x["long_name"] or lx["uquote"]) else "/ln:" + x["long_name"])
         sw = order(lx["order.switch"], sw)
         line = "Var=%s %s %d,%d" % (sg["name"], typ, start, sg["width"]) + "".join(" " + x for x in sw)
         if sg.get("comment"):
